@@ -280,6 +280,19 @@ int socketpair(int domain, int type, int protocol, int sv[2]) {
   return ret;
 }
 
+// errno is thread-local and a fiber may be resumed on a different kernel thread
+// after fiber_wait_for_event(). __errno_location() is declared const, so within
+// one function the compiler computes errno's address once and would keep using
+// the previous thread's errno after such a migration. These helpers recompute
+// it on every use.
+static __attribute__((noinline)) int fiber_io_would_block(void) {
+  return errno == EWOULDBLOCK || errno == EAGAIN;
+}
+
+static __attribute__((noinline)) void fiber_io_set_errno(int value) {
+  errno = value;
+}
+
 int accept(ACCEPTPARAMS) {
   if (!fibershim_accept) {
     fibershim_accept = (acceptFnType)dlsym(RTLD_NEXT, "accept");
@@ -288,7 +301,7 @@ int accept(ACCEPTPARAMS) {
   int sock = fibershim_accept(sockfd, addr, addrlen);
   // several fibers may wait on the same listening socket; all of them are woken
   // by one connection and only one can take it, so keep waiting
-  while (sock < 0 && (errno == EWOULDBLOCK || errno == EAGAIN) &&
+  while (sock < 0 && fiber_io_would_block() &&
          should_block(sockfd)) {
     if (!fiber_wait_for_event(sockfd, FIBER_POLL_IN)) {
       return -1;
@@ -320,7 +333,7 @@ ssize_t read(int fd, void* buf, size_t count) {
       }
     }
     ret = fibershim_read(fd, buf, count);
-  } while (ret < 0 && (errno == EWOULDBLOCK || errno == EAGAIN) &&
+  } while (ret < 0 && fiber_io_would_block() &&
            should_block(fd));
 
   return ret;
@@ -339,7 +352,7 @@ ssize_t readv(int fd, const struct iovec* iov, int iovcnt) {
       }
     }
     ret = fibershim_readv(fd, iov, iovcnt);
-  } while (ret < 0 && (errno == EWOULDBLOCK || errno == EAGAIN) &&
+  } while (ret < 0 && fiber_io_would_block() &&
            should_block(fd));
 
   return ret;
@@ -358,7 +371,7 @@ ssize_t recv(int fd, void* buf, size_t len, int flags) {
       }
     }
     ret = fibershim_recv(fd, buf, len, flags);
-  } while (ret < 0 && (errno == EWOULDBLOCK || errno == EAGAIN) &&
+  } while (ret < 0 && fiber_io_would_block() &&
            !(flags & MSG_DONTWAIT) && should_block(fd));
 
   return ret;
@@ -377,7 +390,7 @@ ssize_t recvfrom(RECVFROMPARAMS) {
       }
     }
     ret = fibershim_recvfrom(sockfd, buf, len, flags, src_addr, addrlen);
-  } while (ret < 0 && (errno == EWOULDBLOCK || errno == EAGAIN) &&
+  } while (ret < 0 && fiber_io_would_block() &&
            !(flags & MSG_DONTWAIT) && should_block(sockfd));
 
   return ret;
@@ -396,7 +409,7 @@ ssize_t recvmsg(int sockfd, struct msghdr* msg, int flags) {
       }
     }
     ret = fibershim_recvmsg(sockfd, msg, flags);
-  } while (ret < 0 && (errno == EWOULDBLOCK || errno == EAGAIN) &&
+  } while (ret < 0 && fiber_io_would_block() &&
            !(flags & MSG_DONTWAIT) && should_block(sockfd));
 
   return ret;
@@ -408,7 +421,7 @@ ssize_t write(int fd, const void* buf, size_t count) {
   }
 
   int ret = fibershim_write(fd, buf, count);
-  while (ret < 0 && (errno == EWOULDBLOCK || errno == EAGAIN) &&
+  while (ret < 0 && fiber_io_would_block() &&
          should_block(fd)) {
     if (!fiber_wait_for_event(fd, FIBER_POLL_OUT)) {
       return -1;
@@ -425,7 +438,7 @@ ssize_t writev(int fd, const struct iovec* iov, int iovcnt) {
   }
 
   int ret = fibershim_writev(fd, iov, iovcnt);
-  while (ret < 0 && (errno == EWOULDBLOCK || errno == EAGAIN) &&
+  while (ret < 0 && fiber_io_would_block() &&
          should_block(fd)) {
     if (!fiber_wait_for_event(fd, FIBER_POLL_OUT)) {
       return -1;
@@ -442,7 +455,7 @@ ssize_t send(int sockfd, const void* buf, size_t len, int flags) {
   }
 
   ssize_t ret = fibershim_send(sockfd, buf, len, flags);
-  while (ret < 0 && (errno == EWOULDBLOCK || errno == EAGAIN) &&
+  while (ret < 0 && fiber_io_would_block() &&
          !(flags & MSG_DONTWAIT) && should_block(sockfd)) {
     if (!fiber_wait_for_event(sockfd, FIBER_POLL_OUT)) {
       return -1;
@@ -460,7 +473,7 @@ ssize_t sendto(int sockfd, const void* buf, size_t len, int flags,
   }
 
   ssize_t ret = fibershim_sendto(sockfd, buf, len, flags, dest_addr, addrlen);
-  while (ret < 0 && (errno == EWOULDBLOCK || errno == EAGAIN) &&
+  while (ret < 0 && fiber_io_would_block() &&
          !(flags & MSG_DONTWAIT) && should_block(sockfd)) {
     if (!fiber_wait_for_event(sockfd, FIBER_POLL_OUT)) {
       return -1;
@@ -477,7 +490,7 @@ ssize_t sendmsg(int sockfd, const struct msghdr* msg, int flags) {
   }
 
   ssize_t ret = fibershim_sendmsg(sockfd, msg, flags);
-  while (ret < 0 && (errno == EWOULDBLOCK || errno == EAGAIN) &&
+  while (ret < 0 && fiber_io_would_block() &&
          !(flags & MSG_DONTWAIT) && should_block(sockfd)) {
     if (!fiber_wait_for_event(sockfd, FIBER_POLL_OUT)) {
       return -1;
@@ -506,7 +519,7 @@ int connect(int sockfd, const struct sockaddr* addr, socklen_t addrlen) {
     }
 
     if (so_error) {
-      errno = so_error;
+      fiber_io_set_errno(so_error);
       return -1;
     }
 
